@@ -22,12 +22,12 @@ def run(ctx):
     n = 0
     for bid, b in build.blocks.items():
         for i, s in enumerate(b['succ']):
-            for ef in build.edge_facts(bid, i):
+            for ef in build.edge_facts(bid, i, all=True):
                 interrupted = (ef[1] is True and ('holds_alternative<BuildResult::Interrupted>' in ef[0] or
                                                   ('ExitInterrupted' in ef[0] and 'exit_status' in ef[0])))
                 if interrupted and s is not None:
                     n += 1
-                    known = frozenset((x[0], x[1]) for x in build.edge_facts(bid, i))     # what this edge established
+                    known = frozenset((x[0], x[1]) for x in build.edge_facts(bid, i, all=True))     # what this edge established
                     r = build.find_path(None, lambda x: x['k'] == 'ret', from_succ=s, init_facts=known,
                                         is_blocker=lambda x: x['k'] == 'call' and x.get('name') == 'Builder::Cleanup')
                     ctx.check('C07.O1', r is None, build.name, 'interrupt:return-without-Cleanup', 'src/build.cc:%s' % build.term(bid)['line'],
@@ -129,7 +129,7 @@ def run(ctx):
     n = 0
     for bid, b in build.blocks.items():
         for i, s in enumerate(b['succ']):
-            for ef in build.edge_facts(bid, i):
+            for ef in build.edge_facts(bid, i, all=True):
                 if ef[1] is True and 'ExitInterrupted' in ef[0] and 'exit_status' in ef[0] and s is not None:
                     n += 1
                     def not_completed(bb, ii, ss):
